@@ -25,7 +25,7 @@
 //	CompositeLit [Type?,Elts..] | SliceLit [Elts..] | MatrixLit [List row,..] | ElemEllipsis [Elt]
 //	LambdaExpr a=""|"l"|"r"|"lr" (LhsHasParen/RhsHasParen) [List lhs, List rhs]
 //	LambdaExpr2 a=""|"l" [List lhs, Body] | RangeExpr [First?,Last?,Expr3?]
-//	ForPhrase [Key?,Value,X,Init?,Cond?] | ComprehensionExpr a="["|"{" [Elt?,ForPhrase..]
+//	ForPhrase a=""|"stmt" (phrase of a for statement; rendering only) [Key?,Value,X,Init?,Cond?] | ComprehensionExpr a="["|"{" [Elt?,ForPhrase..]
 //	FuncLit [Type,Body] | Ellipsis [Elt?] | ArrayType [Len?,Elt] | MapType [K,V]
 //	ChanType a="chan"|"<-chan"|"chan<-" [Value] | FuncType a=""|"decl" [TypeParams?,Params,Results?]
 //	StructType [FieldList] | InterfaceType [FieldList] | FieldList a="("|"{"|"["|"" (rendering only) [Field..]
@@ -129,7 +129,7 @@ func normAttr(t *Tree) string {
 	switch t.K {
 	case "GenDecl":
 		return strings.TrimSuffix(t.A, ";")
-	case "List", "FieldList", "FuncType", "File":
+	case "List", "FieldList", "FuncType", "File", "ForPhrase":
 		// how the list is bracketed, whether the signature carries its own func keyword, class/script file:
 		// decided by the context, not part of the abstract tree
 		return ""
